@@ -1,0 +1,14 @@
+//! Verification hook (cargo feature `verif`): entry counts of every map of this index.
+//! The exhaustive destructuring makes a new field break this build until it is accounted for.
+use super::LuaMetatableIndex;
+
+impl LuaMetatableIndex {
+    pub fn verif_report(&self) -> Vec<(&'static str, usize)> {
+        let Self {
+            metatables,
+        } = self;
+        vec![
+            ("metatable.metatables", metatables.len()),
+        ]
+    }
+}
